@@ -858,6 +858,76 @@ theorem pan_group_names_avoid_addresses (a b : Vsys) (hnd : (b.groups.map (·.na
 
 example : (gTgt.groups.map (·.name)).Nodup := by decide
 
+/-! ## Nothing is left behind (C03 / C10: a completed approve removes what nothing mentions) -/
+
+/-- **`panos_nothing_left_behind`** on the group-free fragment.  After the whole plan the vsys
+holds no address and no service that no rule mentions (`unreferenced`, the predicate the oracle
+applies to every completed approve and to every completed resume).  Equivalence does not see such
+objects; a planner that skips its final block of removals is equivalent and still wrong.  (Full
+statement, false because of F-C03h / F-C03a:
+`wellFormed sh a → wellFormed sh b → ∃ w, Runs sh a (planVsys diff a b) w ∧ unreferenced w = []`.) -/
+theorem panos_nothing_left_behind_partial (sh : Shared) (diff : Differ) (hd : GoodDiffer diff) (a b : Vsys)
+    (hP : PlainPair sh a b) :
+    ∃ w, execAll sh a (planVsys diff a b) = (w, (planVsys diff a b).length, none) ∧ unreferenced w = [] := by
+  obtain ⟨w, h1, _, hg, hsg, _, hlen, _, hlike, _, _, hA, hS⟩ := plain_converges_full sh diff hd a b hP
+  refine ⟨w, h1, ?_⟩
+  -- a rule of the target at index t is matched by the rule of w at index t, with the same members
+  have hrule : ∀ rb ∈ b.rules, ∃ r ∈ w.rules, RuleLike r rb := by
+    intro rb hrb
+    obtain ⟨t, ht, he⟩ := List.getElem_of_mem hrb
+    have htw : t < w.rules.length := by omega
+    refine ⟨w.rules[t], List.getElem_mem htw, ?_⟩
+    have := hlike t w.rules[t] (by simp [htw])
+    rw [show b.rules.getD t default = rb by simp [List.getD, ht, he]] at this
+    exact this
+  have hAu : ∀ x ∈ w.addrs.map (·.name), addrUsed w x = true := by
+    intro x hx
+    obtain ⟨rb, hrb, hm⟩ := hA x hx
+    obtain ⟨r, hr, _, hs, hd', _⟩ := hrule rb hrb
+    simp only [addrUsed, Bool.or_eq_true, List.any_eq_true, List.contains_iff_mem]
+    refine Or.inl ⟨r, hr, ?_⟩
+    rcases hm with hm | hm
+    · exact Or.inl ((hs x).2 hm)
+    · exact Or.inr ((hd' x).2 hm)
+  have hSu : ∀ x ∈ w.svcs.map (·.name), srvUsed w x = true := by
+    intro x hx
+    obtain ⟨rb, hrb, hm⟩ := hS x hx
+    obtain ⟨r, hr, _, _, _, hv⟩ := hrule rb hrb
+    simp only [srvUsed, Bool.or_eq_true, List.any_eq_true, List.contains_iff_mem]
+    exact Or.inl ⟨r, hr, (hv x).2 hm⟩
+  simp only [unreferenced, hg, hsg, List.map_nil, List.append_nil, List.append_eq_nil_iff,
+    List.filter_eq_nil_iff, Bool.not_eq_true']
+  exact ⟨fun x hx => by simp [hAu x hx], fun x hx => by simp [hSu x hx]⟩
+
+/-- the fragment is inhabited, and the predicate is not constantly `[]`: the device of the example
+holds `a2`, `s1`, which the target no longer needs, until the last block of the plan -/
+example : unreferenced (execAll ["shared-1"] plainDev ((planVsys stdDiff plainDev plainTgt).take 6)).1 ≠ [] ∧
+    unreferenced (execAll ["shared-1"] plainDev (planVsys stdDiff plainDev plainTgt)).1 = [] := by
+  set_option maxRecDepth 8192 in decide
+
+/-- device after an approve that was cut right after `set service 'TCP 443 X'`: the service-group
+still lists `tcp 443`, which rule r2 uses too -/
+def hDev : Vsys :=
+  { name := "v", rules := [mkRule "r1" ["any"] "SG", mkRule "r2" ["any"] "tcp 443"],
+    svcs := [⟨"tcp 80", "tcp/80"⟩, ⟨"tcp 443", "tcp/443"⟩, ⟨"TCP 443 X", "tcp/443"⟩],
+    sgroups := [mkGrp "SG" ["tcp 80", "tcp 443"]] }
+/-- target: the group's member `tcp 443` is now called `TCP 443 X` (rule r2 still uses `tcp 443`) -/
+def hTgt : Vsys :=
+  { name := "v", rules := [mkRule "r1" ["any"] "SG", mkRule "r2" ["any"] "tcp 443"],
+    svcs := [⟨"tcp 80", "tcp/80"⟩, ⟨"tcp 443", "tcp/443"⟩, ⟨"TCP 443 X", "tcp/443"⟩],
+    sgroups := [mkGrp "SG" ["tcp 80", "TCP 443 X"]] }
+
+/-- **F-C03h (known).**  Same-named service-groups are compared by CONTENT: the device's `SG`
+(`tcp 80`, `tcp 443`) passes for the target's (`tcp 80`, `TCP 443 X`) and is not sent; the service
+`TCP 443 X` is kept because the target's group names it and the device has it with that value.
+No request is planned, and `TCP 443 X` stays on the device although nothing mentions it.  The
+state arises when an approve is cut between `set service 'TCP 443 X'` and the `set` of the
+group's members.  (Replayed on the real planner: known C10 / C03 F-C03h.) -/
+theorem pan_sgroup_member_kept_unreferenced_counterexample :
+    wellFormed [] hDev = true ∧ wellFormed [] hTgt = true ∧
+    planVsys stdDiff hDev hTgt = [] ∧ equiv hDev hTgt = true ∧ unreferenced hDev = ["TCP 443 X"] := by
+  set_option maxRecDepth 8192 in decide
+
 def obligations : List Lean.Name := [
   ``pan_rules_converge, ``pan_rules_converge_on_device, ``pan_members_converge, ``pan_group_members_converge,
   ``pan_group_reuse_sound, ``pan_uniq_names, ``pan_uniq_names_counterexample,
@@ -875,6 +945,7 @@ def obligations : List Lean.Name := [
   ``panos_vsys_converges_groups_partial, ``panos_executable_groups_partial,
   ``panos_unchanged_only_if_equivalent_groups_partial, ``panos_device_converges_groups_partial,
   ``pan_group_name_address_clash_counterexample, ``pan_group_name_address_clash_repaired,
-  ``pan_group_names_avoid_addresses]
+  ``pan_group_names_avoid_addresses,
+  ``panos_nothing_left_behind_partial, ``pan_sgroup_member_kept_unreferenced_counterexample]
 
 end NA.PanOs
